@@ -571,6 +571,20 @@ func runC04(c *ev.Ctx) {
 			})...)
 	}
 	runSeqWorks(c, works)
+	if c.Thorough() && !c.Lite() {
+		// Maurer at the library's documented scale: recurrence distances around 2^23 blocks need more
+		// than 58.7 Mbit; one sequence at a time (60+ MB each)
+		big := []gen.Seq{}
+		for _, g := range []int{1<<23 - 1, 1 << 23, 1<<23 + 1, 8700000} {
+			big = append(big, gen.Seq{Fam: "maurergap", N: 7 * (1300 + g + 3000), A: g, Seed: gen.Mix(seed, 67, uint64(g))})
+		}
+		big = append(big, gen.Seq{Fam: "maurergap", N: 7 * (1<<23 + 3000), A: 1 << 23, B: 1, Seed: gen.Mix(seed, 68)},
+			gen.Seq{Fam: "maurersparse", N: 7 * 8701000, A: 500000, B: 8700000})
+		for _, sq := range big {
+			runSeqWorks(c, []seqWork{{Seq: sq, Specs: []Spec{{T: "maurer"}}, Degenerate: true}})
+			c.Count("maurer_sequences_beyond_58_Mbit", 1)
+		}
+	}
 
 	// (b) exhaustive: all 2^m blocks, m = 2..M, as single-block calls
 	M := 16
